@@ -1,6 +1,6 @@
 (** C09 - Socket.IO encoding round-trips, matches the v5 format, leaves its input intact.
     This file holds statements only; every proof is `exact <lemma>`. *)
-From SioV Require Import Base.GoSem Sio.Json Sio.Header Sio.Binary Sio.BinaryProofs Sio.Codec Sio.CodecProofs.
+From SioV Require Import Base.GoSem Sio.Json Sio.Header Sio.HeaderProofs Sio.Binary Sio.BinaryProofs Sio.Codec Sio.CodecProofs.
 
 (** Encode hands back the value it was given exactly as it was (every cell deconstruct overwrote
     with a placeholder is restored), for every JSON library, value tree of any depth, header and
@@ -9,3 +9,48 @@ Theorem C09_encode_leaves_value :
   forall (marshal : jv -> bytes) (unmarshal : bytes -> option jv) (max_att : Z) h v e,
   clean_opt v = true -> encode marshal unmarshal max_att h v = Ok e -> e_value e = v.
 Proof. exact encode_leaves_value. Qed.
+
+(** Encoding the same value again - with a fresh header or with the header object the first Encode
+    rewrote - yields exactly the same frames. *)
+Theorem C09_reencode_same_frames :
+  forall (marshal : jv -> bytes) (unmarshal : bytes -> option jv) (max_att : Z) h v e,
+  clean_opt v = true -> encode marshal unmarshal max_att h v = Ok e ->
+  encode marshal unmarshal max_att h (e_value e) = Ok e /\
+  encode marshal unmarshal max_att (e_header e) (e_value e) = Ok e.
+Proof. exact reencode_same. Qed.
+
+(** The caller's header, however, is rewritten when a plain EVENT / ACK header meets a value with
+    binary (known finding header-rewritten; pinned by the package's own TestEncode). *)
+Theorem C09_encode_leaves_header_refuted :
+  exists h v e, encode jprint jparse 0 h v = Ok e /\ e_header e <> h.
+Proof.
+  exists (mkHeader 2 [47%N] None 0), (ev [101%N] [VBin [1%N]]).
+  eexists. split; [vm_compute; reflexivity|]. discriminate.
+Qed.
+
+(** ... and only then: without binary in the value (or with a header type that is never
+    deconstructed) the header comes back as it was. *)
+Theorem C09_encode_leaves_header_partial :
+  forall (marshal : jv -> bytes) (unmarshal : bytes -> option jv) (max_att : Z) h v e,
+  header_kept h v = true -> encode marshal unmarshal max_att h v = Ok e -> e_header e = h.
+Proof. exact encode_leaves_header. Qed.
+
+Example C09_header_kept_satisfiable :
+  header_kept (mkHeader 2 [47%N] (Some 3%N) 0) (ev [101%N] [VInt 1; VStr [120%N]]) = true.
+Proof. reflexivity. Qed.
+
+(** Header round trip (C10's lemma): every header Encode can write, followed by a payload that
+    is empty or starts with one of [ { and the double quote, parses back to itself; for an event what remains is the
+    pre-scan of the payload. *)
+Theorem C09_header_roundtrip :
+  forall unm h p, header_ok h -> payload_ok h p ->
+  parse_header unm (encode_header h ++ p) =
+  if is_event (h_type h) then
+    rbind (prescan p) (fun tmp => match unm tmp with Some [name] => Ok (h, p, name) | _ => Err end)
+  else Ok (h, p, []).
+Proof. exact parse_encode_header_full. Qed.
+
+(** The examples of the protocol document: the frames, the specification printer, decoding back
+    (event name ending in a backslash included). *)
+Theorem C09_protocol_examples : protocol_examples_stmt.
+Proof. exact protocol_examples. Qed.
